@@ -270,6 +270,16 @@ def run(ctx):
     )
     _results_interpreted(ctx, r4, repo)
 
+    r7 = ctx.rule(
+        "C09.R7",
+        "TOY-BAND (interpreted): the expected set the toy calculator feeds the scan runs from -2 sigma to +2 sigma like the "
+        "asymptotic one: ToyCalculator.expected_pvalues, with the per-toy p-values and the backend's percentile as recorders, "
+        "returns for each of CLsb / CLb / CLs, at position j, the 100*Phi(j-2) percentile (2.28, 15.87, 50, 84.13, 97.72) over "
+        "the background-only toys of that kind's p-value -- taken along the toy axis",
+        "BAND", floor=1,
+    )
+    _toy_band(ctx, r7, repo)
+
 
 # ----------------------------------------------------------------------
 def _free_reads(fn):
@@ -543,6 +553,78 @@ def _interpreted(ctx, r5, r6, repo):
             ctx.holds(r6, f"{UL}::toms748_scan [second call, data refilled in place]", f"{len(second)} fresh hypotest evaluations on the current data")
     except errs as e:
         ctx.unrecognised(r6, ul, "upper_limit (automatic)", f"not interpretable: {type(e).__name__}: {e}")
+
+
+def _toy_band(ctx, rid, repo):
+    import math
+    from fractions import Fraction as F_
+    from .. import listnp
+    from ..alg import AutoRegion, NotHandled, RaisedInFragment
+    from ..objmodel import Instance, World
+    at, c = Poly.atom, Poly.const
+    CALC = "src/pyhf/infer/calculators.py"
+    tcc = repo.cls(CALC, "ToyCalculator")
+    ep = tcc.methods.get("expected_pvalues") if tcc else None
+    if ep is None:
+        ctx.unrecognised(rid, repo.module(CALC), "ToyCalculator.expected_pvalues", "not found")
+        return
+    ctx.touch(ep)
+    phi = lambda n: 50.0 * (1.0 + math.erf(n / math.sqrt(2.0)))
+    want_q = {n: phi(n) for n in (-2, -1, 0, 1, 2)}
+    kinds = ("CLsb", "CLb", "CLs")
+    seen = {}
+
+    def num(v):
+        p_ = to_poly(v)
+        if not p_.is_const():
+            raise Undecided("percentile rank is not a number")
+        return float(p_.const_value())
+
+    def percentile(a, k):
+        tensor, q = a[0], a[1] if len(a) > 1 else k.get("q")
+        axis = k.get("axis", a[2] if len(a) > 2 else None)
+        seen["axis"] = None if axis is None else int(num(axis))
+        seen["tensor"] = [[str(to_poly(x)) for x in row] for row in tensor]
+        qs = [num(x) for x in (q if isinstance(q, list) else [q])]
+        seen["q"] = qs
+        labels = []
+        for x in qs:
+            n_ = [n for n, w_ in want_q.items() if abs(w_ - x) < 1e-4]
+            labels.append(f"{n_[0]:+d}sigma" if n_ else f"q={x:.4f}")
+        # result of percentile(t, q, axis=0) on a (toys, 3) tensor: shape (len(q), 3)
+        return listnp.T([[at(f"PCT[{lab}]({kinds[j]})") for j in range(3)] for lab in labels])
+
+    def normal_cdf(a, k):
+        x = a[0]
+        f = lambda v: to_poly(F_(0.5 * (1.0 + math.erf(num(v) / math.sqrt(2.0)))).limit_denominator(10 ** 12))
+        return listnp.T([f(v) for v in x]) if isinstance(x, list) else f(x)
+
+    try:
+        ext = listnp.externals()
+        ext.update({"__strict__": True, "percentile": percentile, "normal_cdf": normal_cdf,
+                    "transpose": lambda a, k: listnp.T([list(r) for r in zip(*a[0])]),
+                    "get_backend": (lambda tl_: (lambda a, k: (tl_, None)))(Obj("tensorlib", {"name": "numpy", "precision": "64b"}))})
+        w = World(ext, region=AutoRegion(), module_env={"log": Obj("log")})
+        w.add_class(tcc)
+        inst = Instance(tcc)
+        ntoys = 4
+        inst.attrs["pvalues"] = __import__("pyhfsa.alg", fromlist=["PyFunc"]).PyFunc(lambda a, k: tuple(at(f"{kd}<{to_poly(a[0])}>") for kd in kinds), "pvalues")
+        bkg = Obj("bkg_dist", {"samples": listnp.T([at(f"t{i}") for i in range(ntoys)])})
+        sb = Obj("sb_dist", {"samples": listnp.T([at(f"s{i}") for i in range(ntoys)])})
+        out = w.call_method(inst, "expected_pvalues", [sb, bkg])
+        got = [[str(to_poly(x)) for x in band] for band in out]
+        want = [[f"PCT[{n:+d}sigma]({kd})" for n in (-2, -1, 0, 1, 2)] for kd in kinds]
+        want_tensor = [[f"{kd}<t{i}>" for kd in kinds] for i in range(ntoys)]
+        if seen.get("tensor") != want_tensor or seen.get("axis") != 0:
+            ctx.violated(rid, ep, "percentile input", "the percentiles are not taken over the background-only toys (axis 0) of the (CLsb, CLb, CLs) computed for each background-only toy statistic", expected=f"{want_tensor} along axis 0", found=f"{seen.get('tensor')} along axis {seen.get('axis')}", node=ep.node)
+        elif got != want:
+            ctx.violated(rid, ep, "toy expected band", "the expected set of the toy calculator does not run from -2 sigma to +2 sigma (percentiles 2.28, 15.87, 50, 84.13, 97.72 of the background-only toy p-values): the scan's five expected limits come out in another order / for other quantiles than the asymptotic ones", expected=str(want), found=str(got), node=ep.node)
+        else:
+            ctx.holds(rid, f"{CALC}::ToyCalculator.expected_pvalues", f"percentile ranks {['%.4f' % x for x in seen['q']]} along the toy axis; bands returned as [CLsb, CLb, CLs] x (-2..+2 sigma)")
+    except RaisedInFragment as e:
+        ctx.violated(rid, ep, "ToyCalculator.expected_pvalues", f"raises {e.exc_name} on valid inputs", node=ep.node)
+    except (Undecided, KeyError, TypeError, ValueError, IndexError, AttributeError) as e:
+        ctx.unrecognised(rid, ep, "ToyCalculator.expected_pvalues", f"not interpretable: {type(e).__name__}: {e}")
 
 
 def _results_interpreted(ctx, rid, repo):
